@@ -35,6 +35,29 @@ pub fn run(scenario: &str, input: &Value) -> Option<(bool, Value)> {
             }
             Some((ok, json!({"len": len, "items": items, "probe": probe_res})))
         }
+        // C09: fragments numbered N..1 (header = N, carrying the start of the data) reassemble to the original bytes
+        "fragments" => {
+            use edp_client::fragmentation::FragmentAssembler;
+            let original: Vec<u8> = input["original"].as_array().unwrap().iter().map(|x| x.as_u64().unwrap() as u8).collect();
+            let cuts: Vec<usize> = input["cuts"].as_array().unwrap().iter().map(|x| x.as_u64().unwrap() as usize).collect();
+            // pieces in data order; piece k (0-based) of n has fragment id n-k
+            let mut pieces = Vec::new();
+            let mut last = 0;
+            for c in cuts.iter().chain(std::iter::once(&original.len())) { pieces.push(original[last..*c].to_vec()); last = *c; }
+            let n = pieces.len() as u64;
+            // arrival order given as list of piece indices
+            let order: Vec<usize> = input["arrival"].as_array().unwrap().iter().map(|x| x.as_u64().unwrap() as usize).collect();
+            let mut a = FragmentAssembler::new();
+            let mut outs = Vec::new();
+            for k in order {
+                let id = n - k as u64;
+                let r = if k == 0 { a.start_fragment(7u64, id, None, pieces[k].clone()) } else { a.add_fragment(7u64, id, pieces[k].clone()) };
+                outs.push(r);
+            }
+            let some: Vec<&Vec<u8>> = outs.iter().filter_map(|o| o.as_ref()).collect();
+            let ok = some.len() == 1 && outs.last().unwrap().is_some() && *some[0] == original && a.pending_count() == 0;
+            Some((ok, json!({"returned": some, "pending_after": a.pending_count()})))
+        }
         // C03: an encoding of an atom decodes to exactly that atom (text given as UTF-8)
         "decode_atom" => {
             let data = gen_bytes(input);
